@@ -37,6 +37,21 @@ CHECKS["C04"] = dict(
     design_ref="DESIGN.md section 5, C04",
 )
 
+CHECKS["C01"] = dict(
+    engine=E1,
+    technique="explicit-state BFS over all histories of Assoc/Est/Mod(single rule IE: every verb x kind, created and never-created ids)/Del/Report/SEID-0 response on two peers, crossed with data-plane fault positions (a fault armed at every offset of the call stream, failing before or after taking effect), deviation-bounded (<=1 quick, <=2 thorough faults)",
+    text="Model checking of the implementation with fault enumeration: after every transition the model data plane's table must only hold rules of live sessions that a Create IE requested, every Update/Remove/Query call must address a created rule, and a session end must leave no rule behind - also for creates that failed after taking effect.",
+    note=E1_NOTE,
+    design_ref="DESIGN.md section 5, C01",
+)
+CHECKS["C05"] = dict(
+    engine=E1,
+    technique="explicit-state BFS over histories with deliberately colliding rule ids and CP SEIDs on two peers (Est/Mod/Del/re-association/SEID-0 responses/buffered-packet pushes/takeover by a fresh node id), differential isolation oracle on every transition",
+    text="Model checking of the implementation with a differential oracle that needs no hand-written expectation: for an event addressed to session X (or node N) the dumps and data-plane rows of every other session must be bit-identical before and after, and every data-plane call must be tagged with X's SEID.",
+    note=E1_NOTE + " Takeover only onto a fresh node id, as the quantifier says.",
+    design_ref="DESIGN.md section 5, C05",
+)
+
 NOT_YET = "check not built yet (work in progress in this round; design in DESIGN.md section 5)"
 
 def main():
